@@ -34,6 +34,7 @@ import (
 	"testing"
 
 	"github.com/snapcore/snapd/dirs"
+	"github.com/snapcore/snapd/overlord"
 	"github.com/snapcore/snapd/overlord/auth"
 	"github.com/snapcore/snapd/overlord/state"
 	"github.com/snapcore/snapd/polkit"
@@ -346,6 +347,141 @@ func verifAccessListener(t *testing.T, d *Daemon, rowsByClass map[string][]verif
 	emit(map[string]interface{}{"k": "listener-summary", "connections": n, "mismatches": bad, "uid": os.Getuid()})
 }
 
+// verifAccessSessions replays every login/logout history of ApiAccessSession.tla on a real state: logins through
+// the real auth.NewUser, logouts through the real POST /v2/logout (logoutCmd with its real handler, i.e.
+// auth.RemoveUser).  After EVERY step a request carrying the macaroon of EVERY user issued so far (logged out or
+// not) is sent to real authenticated endpoints (handlers stubbed), as a non-root peer, polkit answering no.
+//
+//	statement: handler ran  =>  the macaroon's user is in the SPEC's logged-in set      (else violation)
+//	design:    user in the spec's logged-in set  =>  handler ran                        (else drift)
+func verifAccessSessions(t *testing.T, path string, emit verifAccessEmit) {
+	var tab struct {
+		Histories []struct {
+			Ops []struct {
+				Op   string `json:"op"`
+				U    int    `json:"u"`
+				Live []int  `json:"live"`
+			} `json:"ops"`
+		} `json:"histories"`
+	}
+	b, err := os.ReadFile(path)
+	if err != nil {
+		t.Fatal(err)
+	}
+	if err := json.Unmarshal(b, &tab); err != nil {
+		t.Fatal(err)
+	}
+	oldPolkit := polkitCheckAuthorization
+	polkitCheckAuthorization = func(pid int32, uid uint32, actionId string, details map[string]string, flags polkit.CheckFlags) (bool, error) {
+		return false, nil
+	}
+	defer func() { polkitCheckAuthorization = oldPolkit }()
+
+	// real endpoints declared authenticated (one without, one with a polkit action), GET
+	var targets []*Command
+	havePlain, havePolkit := false, false
+	for _, cmd := range api {
+		a, ok := cmd.ReadAccess.(authenticatedAccess)
+		if !ok || cmd.GET == nil {
+			continue
+		}
+		if a.Polkit == "" && !havePlain {
+			havePlain = true
+			targets = append(targets, cmd)
+		}
+		if a.Polkit != "" && !havePolkit {
+			havePolkit = true
+			targets = append(targets, cmd)
+		}
+	}
+	if len(targets) == 0 {
+		t.Fatal("no endpoint with authenticatedAccess on GET in the api table")
+	}
+	if _, ok := logoutCmd.WriteAccess.(authenticatedAccess); !ok || logoutCmd.POST == nil {
+		t.Fatal("/v2/logout is no longer POST + authenticatedAccess")
+	}
+	peer := (&ucrednet{Pid: 4242, Uid: 1000, Socket: dirs.SnapdSocket}).String()
+	steps, requests, drift, viol, logouts := 0, 0, 0, 0, 0
+	for _, hist := range tab.Histories {
+		st := state.New(nil)
+		d := &Daemon{state: st, overlord: overlord.MockWithState(st)}
+		macaroon := map[int]string{}
+		issued := 0
+		done := ""
+		for _, op := range hist.Ops {
+			steps++
+			done += fmt.Sprintf(" %s%d", op.Op, op.U)
+			switch op.Op {
+			case "login":
+				st.Lock()
+				u, err := auth.NewUser(st, auth.NewUserParams{Username: fmt.Sprintf("verif%d", op.U), Email: fmt.Sprintf("verif%d@example.com", op.U), Macaroon: fmt.Sprintf("m%d", op.U), Discharges: []string{"d"}})
+				st.Unlock()
+				if err != nil {
+					t.Fatal(err)
+				}
+				issued++
+				if issued != op.U {
+					t.Fatalf("history%s: login order", done)
+				}
+				macaroon[op.U] = u.Macaroon
+			case "logout":
+				logouts++
+				lc := *logoutCmd
+				lc.d = d
+				req := httptest.NewRequest("POST", "http://localhost/v2/logout", nil)
+				req.RemoteAddr = peer
+				req.Header.Set("Authorization", fmt.Sprintf(`Macaroon root="%s"`, macaroon[op.U]))
+				w := httptest.NewRecorder()
+				lc.ServeHTTP(w, req)
+				if w.Code != 200 {
+					drift++
+					emit(map[string]interface{}{"k": "session-drift", "why": "logout refused", "history": strings.TrimSpace(done), "user": op.U, "status": w.Code, "body": w.Body.String()})
+				}
+			default:
+				t.Fatalf("unknown op %q", op.Op)
+			}
+			live := map[int]bool{}
+			for _, u := range op.Live {
+				live[u] = true
+			}
+			for u := 1; u <= issued; u++ {
+				for _, cmd := range targets {
+					ran := false
+					cc := *cmd
+					cc.d = d
+					cc.GET = func(c *Command, r *http.Request, user *auth.UserState) Response {
+						ran = true
+						return verifAccessStubResponse{}
+					}
+					req := httptest.NewRequest("GET", "http://localhost/v2/verif", nil)
+					req.RemoteAddr = peer
+					req.Header.Set("Authorization", fmt.Sprintf(`Macaroon root="%s"`, macaroon[u]))
+					w := httptest.NewRecorder()
+					cc.ServeHTTP(w, req)
+					requests++
+					r := map[string]interface{}{"history": strings.TrimSpace(done), "user": u, "logged_in_per_spec": op.Live, "path": cmd.Path,
+						"remote_addr": peer, "ran": ran, "status": w.Code}
+					if ran && !live[u] {
+						viol++
+						r["k"] = "session-violation"
+						emit(r)
+					} else if !ran && live[u] {
+						drift++
+						r["k"] = "session-drift"
+						r["why"] = "a user that logged in and did not log out is not recognised"
+						emit(r)
+					} else if requests == 7 {
+						r["k"] = "session-sample"
+						emit(r)
+					}
+				}
+			}
+		}
+	}
+	emit(map[string]interface{}{"k": "session-summary", "histories": len(tab.Histories), "steps": steps, "requests": requests,
+		"logouts": logouts, "drift": drift, "violations": viol, "targets": len(targets)})
+}
+
 func TestVerifAccess(t *testing.T) {
 	outPath := os.Getenv("VERIF_OUT")
 	if outPath == "" {
@@ -361,6 +497,9 @@ func TestVerifAccess(t *testing.T) {
 
 	if p := os.Getenv("VERIF_CODEC_TABLE"); p != "" {
 		verifAccessCodec(t, p, emit)
+	}
+	if p := os.Getenv("VERIF_SESSION_TABLE"); p != "" {
+		verifAccessSessions(t, p, emit)
 	}
 	tp := os.Getenv("VERIF_TABLE")
 	if tp == "" {
